@@ -48,6 +48,9 @@ inductive Expr where
   | len (e : Expr)
   /-- `list.get(i)`: `Some(copy of the element)` or `None` -/
   | get (i : Nat) (l : Expr)
+  | contains (l x : Expr)
+  | index (l x : Expr)
+  | concat (a b : Expr)
   /-- a callee that assigns the constant `c` to `.path` of ITS copy of the argument and returns it -/
   | passSet (path : Array Nat) (c e : Expr)
   | ite (c a b : Expr)
@@ -175,6 +178,32 @@ partial def eval : Expr → M Val
     match ← eval e with
     | .list h => pure (.int (← get).heap[h]!.size)
     | _ => do stuck "len of a non-list"; pure .unit
+  | .contains l x => do
+    match ← eval l with
+    | .list h =>
+      let v ← eval x
+      let s ← get
+      pure (.int (if s.heap[h]!.any (fun e => valEq s.heap e v) then 1 else 0))
+    | _ => do stuck "contains on a non-list"; pure .unit
+  | .index l x => do
+    match ← eval l with
+    | .list h =>
+      let v ← eval x
+      let s ← get
+      match s.heap[h]!.findIdx? (fun e => valEq s.heap e v) with
+      | some i => pure (.enm 0 #[.int i])
+      | none => pure (.enm 1 #[])
+    | _ => do stuck "index on a non-list"; pure .unit
+  | .concat a b => do
+    match ← eval a with
+    | .list ha =>
+      match ← eval b with
+      | .list hb =>
+        let s ← get
+        set { s with heap := s.heap.push (s.heap[ha]! ++ s.heap[hb]!) }
+        pure (.list s.heap.size)
+      | _ => do stuck "concat with a non-list"; pure .unit
+    | _ => do stuck "concat on a non-list"; pure .unit
   | .passSet path c e => do
     let v ← eval e
     let nv ← eval c
@@ -339,6 +368,15 @@ partial def pExpr : P Expr := do
   | "G" => do
     let i ← nat
     pure (.get i (← pExpr))
+  | "C" => do
+    let l ← pExpr
+    pure (.contains l (← pExpr))
+  | "X" => do
+    let l ← pExpr
+    pure (.index l (← pExpr))
+  | "K" => do
+    let a ← pExpr
+    pure (.concat a (← pExpr))
   | "M" => do
     let n ← nat
     let p ← times n nat
